@@ -1308,12 +1308,12 @@ _pattern.define(
         | LITERAL
         | brackets(many(_pattern | unpack("iterable")))
         | in_tuple(many(_pattern | unpack("iterable")))
-        | pexpr(keepsym("."), many(SYM))
+        | pexpr(keepsym("."), times(2, float("inf"), SYM))
         | pexpr(keepsym("|"), many(_pattern))
         | braces(many(LITERAL + _pattern), maybe(pvalue("unpack-mapping", SYM)))
         | pexpr(
             pexpr(keepsym("."), oneplus(SYM))
-            | notsym(".", "|", "unpack-mapping", "unpack-iterable"),
+            | notsym(".", "|", "unpack-mapping", "unpack-iterable", "None", "True", "False"),
             many(parse_if(lambda x: not isinstance(x, Keyword), _pattern)),
             many(KEYWORD + _pattern),
         )
